@@ -536,7 +536,7 @@ func runC08(c *eng.Ctx) {
 		dir := eng.CallArgs(open.Instr.(ssa.CallInstruction))[0]
 		inKey := map[*ssa.Parameter]bool{}
 		nf := 0
-		for _, b := range f.Blocks {
+		for _, b := range eng.BlocksT(f) {
 			for _, in := range b.Instrs {
 				st, ok := in.(*ssa.Store)
 				if !ok {
